@@ -176,3 +176,46 @@ Definition nest_gpu (v : variant) (rho : env) (hs : list header) : option (list 
       | None => None
       end
   end.
+
+(* ---- the same launch in 32-bit C arithmetic (used by the correspondence run; None = undefined
+        behaviour somewhere in the emitted expressions) ---- *)
+Definition nest_counts_c (v : variant) (rho : env) (hs : list header) : option (list Z) :=
+  let D := length hs in
+  match all_some (map (fun h => match reread (count_tree v h) with
+                                | Some c => evalc rho c
+                                | None => None
+                                end) hs) with
+  | Some cs =>
+      let dims := launch_dims cs in
+      Some (map (fun d => nth (axis_of D d) dims 1) (seq 0 D))
+  | None => None
+  end.
+
+Definition nest_gpu_c (v : variant) (rho : env) (hs : list header) : option (list (list Z)) :=
+  let D := length hs in
+  match nest_counts_c v rho hs with
+  | None => None
+  | Some ns =>
+      match all_some
+              (map (fun dhn =>
+                      let d := fst (fst dhn) in let h := snd (fst dhn) in let n := snd dhn in
+                      let a := axis_of D d in
+                      match reread (value_tree h (Var (magic_of a))) with
+                      | Some t =>
+                          all_some (map (fun k => evalc (upd_env rho (magic_of a) (Z.of_nat k)) t)
+                                        (seq 0 (launch_blocks v n)))
+                      | None => None
+                      end)
+                   (combine (combine (seq 0 D) hs) ns)) with
+      | Some ls => Some (cart ls)
+      | None => None
+      end
+  end.
+
+(* a header all of whose operands are literals *)
+Definition const_header (h : header) : bool :=
+  match vars (h_init h) ++ vars (h_bound h) ++
+        match update_value (h_upd h) with Some s => vars s | None => [] end with
+  | [] => true
+  | _ => false
+  end.
